@@ -65,6 +65,7 @@ type c01case struct {
 	prompt    string
 	cmds      []c01cmd
 	longest   int
+	ret       string
 }
 
 var c01esc = []string{"\x1b[0m", "\x1b[1;32m", "\x1b[K", "\x1b[2J", "\x1b[?25h", "\x1b]0;title\x07", "\x1b[38;5;12m", "\x1b[1A"}
@@ -87,6 +88,10 @@ func genC01(seed uint64, thorough bool) c01case {
 		cs.readSize = 8192
 	}
 	cs.delayUs = []int{20, 50, 250}[r.Intn(3)]
+	cs.ret = "\n"
+	if r.Chance(1, 5) {
+		cs.ret = "\r\n"
+	}
 	if r.Chance(1, 6) {
 		cs.pauseUs = r.Range(50, 400)
 	}
@@ -196,6 +201,7 @@ func runC01case(cs c01case) c01obs {
 	dev.Mode = "exec"
 	dev.NL = cs.nl
 	dev.EchoWrap = cs.wrap
+	dev.IgnoreCR = cs.ret != "\n"
 	dev.Prompt = func(*sim.CLI) string { return cs.prompt }
 	k := 0
 	dev.Handle = func(_ *sim.CLI, line string) string {
@@ -218,7 +224,7 @@ func runC01case(cs c01case) c01obs {
 	dev.Start()
 	d, err := generic.NewDriver("h", options.WithCustomTransport(dev), options.WithAuthBypass(),
 		options.WithTimeoutOps(3*time.Second), options.WithReadDelay(time.Duration(cs.delayUs)*time.Microsecond),
-		options.WithPromptSearchDepth(cs.depth), options.WithTransportReadSize(cs.readSize))
+		options.WithPromptSearchDepth(cs.depth), options.WithTransportReadSize(cs.readSize), options.WithReturnChar(cs.ret))
 	if err != nil {
 		o.errs = append(o.errs, "new:"+err.Error())
 		return o
@@ -295,7 +301,7 @@ func runC01case(cs c01case) c01obs {
 			start = end
 		}
 		var f []string
-		f = append(f, "c01", "sess", strconv.Itoa(cs.depth), b2s(cs.exact), b2s(cs.strip), "0a")
+		f = append(f, "c01", "sess", strconv.Itoa(cs.depth), b2s(cs.exact), b2s(cs.strip), vlib.Hex([]byte(cs.ret)))
 		for i := 0; i+1 < len(regions) && i/2 < len(cs.cmds); i += 2 {
 			f = append(f, vlib.Hex([]byte(cs.cmds[i/2].cmd)), vlib.HexList(regions[i]), vlib.HexList(regions[i+1]))
 		}
@@ -381,6 +387,7 @@ func c01check(c *ctx, cases []c01case) {
 		res.Count(fmt.Sprintf("seg:%d", cs.segClass))
 		res.Count(fmt.Sprintf("exact:%v strip:%v", cs.exact, cs.strip))
 		res.Count(fmt.Sprintf("cmds:%d", len(cs.cmds)))
+		res.Count(fmt.Sprintf("ret:%q", cs.ret))
 		res.Count(fmt.Sprintf("dom:%v", dom))
 		if o.straddle {
 			res.Count("straddle")
@@ -424,7 +431,7 @@ func c01check(c *ctx, cases []c01case) {
 		var wantWrites [][]byte
 		for _, cm := range cs.cmds {
 			wantLines = append(wantLines, cm.cmd)
-			wantWrites = append(wantWrites, []byte(cm.cmd), []byte("\n"))
+			wantWrites = append(wantWrites, []byte(cm.cmd), []byte(cs.ret))
 		}
 		if strings.Join(o.lines, "\x00") != strings.Join(wantLines, "\x00") {
 			res.Fail("oracle", caseLine, fmt.Sprintf("device received lines %q, expected %q", o.lines, wantLines), "wrong-device-input")
